@@ -42,6 +42,8 @@ pub enum Op {
     ByName(usize),
     /// by_index_decrypt with the right password
     OpenPw(usize),
+    /// by_index_decrypt with a wrong password
+    OpenWrongPw(usize),
     /// this handle's own reader fails its k-th I/O call from now (once)
     FailNext(u64),
 }
@@ -120,7 +122,7 @@ impl Handle {
     }
     fn step(&mut self, op: Op, names: &[String]) {
         let obs = match op {
-            Op::Open(i) | Op::OpenRaw(i) | Op::ByName(i) | Op::OpenPw(i) => {
+            Op::Open(i) | Op::OpenRaw(i) | Op::ByName(i) | Op::OpenPw(i) | Op::OpenWrongPw(i) => {
                 self.file = None; // the previous borrow ends here
                 // SAFETY: `self.ar` is a live Box; the only reference derived from it is the ZipFile
                 // stored in `self.file`, which was just dropped.
@@ -128,7 +130,7 @@ impl Handle {
                 let r = match op {
                     Op::Open(_) => ar.by_index(i),
                     Op::OpenRaw(_) => ar.by_index_raw(i),
-                    Op::OpenPw(_) => match ar.by_index_decrypt(i, PW) {
+                    Op::OpenPw(_) | Op::OpenWrongPw(_) => match ar.by_index_decrypt(i, if matches!(op, Op::OpenPw(_)) { PW } else { b"some other password" }) {
                         Ok(Ok(f)) => Ok(f),
                         Ok(Err(_)) => Err(zip::result::ZipError::InvalidArchive("<invalid password>")),
                         Err(e) => Err(e),
@@ -225,31 +227,41 @@ pub fn scripts() -> Vec<Vec<Op>> {
         vec![FailNext(3), Open(1), Meta, Open(1)],
         vec![FailNext(4), OpenRaw(2), OpenRaw(2), ReadToEnd],
         vec![Open(0), FailNext(1), Read(9), ReadToEnd],
+        // entries without data (an empty file, a directory): decoding and undecoded opens must report the same offsets
+        vec![OpenRaw(5), DataStart, ReadToEnd, Meta],
+        vec![Open(5), DataStart, ReadToEnd, Close],
+        vec![ByName(6), DataStart, OpenRaw(6), DataStart],
+        vec![Open(6), Meta, Open(5), DataStart],
+        // the AES entry: right and wrong passwords side by side (what one handle derived must not help another)
+        vec![OpenPw(7), Read(5), ReadToEnd, Meta],
+        vec![OpenWrongPw(7), Read(5), OpenWrongPw(4), Read(5)],
+        vec![OpenWrongPw(7), Close, OpenPw(7), ReadToEnd],
+        vec![Open(7), OpenRaw(7), DataStart, ReadToEnd],
     ]
 }
 
 pub fn archive(seed: u64) -> (Vec<u8>, Vec<String>) {
+    use crate::reference::zipbuild::{build, extra_block, ESpec, Enc, Spec};
     let mut r = crate::util::Rng(seed ^ 0x20);
-    let calls = vec![
-        Call::SetComment(b"shared".to_vec()),
-        Call::StartFile { name: "stored".into(), opts: FOpts::m(0) },
-        Call::Write(r.bytes(40)),
-        Call::StartFile { name: "deflated".into(), opts: FOpts::m(8) },
-        Call::Write(content_class(3, seed)),
-        Call::StartFile { name: "zstd".into(), opts: FOpts { large: true, ..FOpts::m(93) } },
-        Call::Write(content_class(3, seed ^ 1)),
-        Call::StartExtra { name: "with-extra".into(), opts: FOpts::m(12) },
-        Call::Write(crate::reference::zipbuild::extra_block(0xbeef, b"only local")),
-        Call::EndLocalStartCentral,
-        Call::EndExtra,
-        Call::Write(r.bytes(25)),
-        Call::StartFile { name: "crypto".into(), opts: FOpts { password: Some(PW.to_vec()), ..FOpts::m(8) } },
-        Call::Write(content_class(3, seed ^ 2)),
-        Call::Finish,
-    ];
-    let (res, bytes) = exec(&calls, &[]);
-    assert!(res.iter().all(|x| x.is_ok()));
-    (bytes, vec!["stored".into(), "deflated".into(), "zstd".into(), "with-extra".into(), "crypto".into()])
+    let e = |name: &str, method: u16, content: Vec<u8>| ESpec { name: name.as_bytes().to_vec(), method, content, made_by: (3 << 8) | 20, ext_attr: 0o100644 << 16, ..Default::default() };
+    // an independent builder lays the archive out (the crate's writer cannot produce AES entries): stored, deflated,
+    // zstd with a local ZIP64 block, bzip2 with local-only extra data, ZipCrypto, an empty file, a directory, AE-2
+    let spec = Spec {
+        entries: vec![
+            e("stored", 0, r.bytes(40)),
+            e("deflated", 8, content_class(3, seed)),
+            ESpec { zip64_local: true, ..e("zstd", 93, content_class(3, seed ^ 1)) },
+            ESpec { local_extra: extra_block(0xbeef, b"only local"), ..e("with-extra", 12, r.bytes(25)) },
+            ESpec { enc: Enc::ZipCrypto { pw: PW.to_vec(), infozip: false }, ..e("crypto", 8, content_class(3, seed ^ 2)) },
+            e("empty", 0, vec![]),
+            ESpec { ext_attr: (0o040755 << 16) | 0x10, ..e("dir/", 0, vec![]) },
+            ESpec { enc: Enc::Aes { version: 2, strength: 3, pw: PW.to_vec(), salt_seed: 7 }, ..e("aes", 8, content_class(3, seed ^ 3)) },
+        ],
+        comment: b"shared".to_vec(),
+        ..Default::default()
+    };
+    let (bytes, _) = build(&spec);
+    (bytes, vec!["stored".into(), "deflated".into(), "zstd".into(), "with-extra".into(), "crypto".into(), "empty".into(), "dir/".into(), "aes".into()])
 }
 
 /// All interleavings of k sequences with the given lengths, as lists of handle indices.
@@ -350,10 +362,11 @@ pub fn run(args: &Args) -> i32 {
     let n = all.len();
     let il2 = interleavings(&[4, 4]);
     let il3 = interleavings(&[4, 4, 4]);
-    let triple_ids: Vec<usize> = if thorough { vec![0, 1, 2, 3, 4, 5, 12, 13, 14, 16, 17, 19] } else { vec![0, 1, 2, 12, 13, 16] };
+    let triple_ids: Vec<usize> = if thorough { vec![0, 1, 2, 3, 4, 5, 12, 13, 14, 16, 17, 19, 22, 23] } else { vec![0, 1, 2, 12, 13, 16] };
+    // (the AES scripts cost a key derivation per open: they take part in all pairs, not in the triples)
     let triples = triple_ids.len();
     ctx.rule = format!(
-        "E-SEQ at API-call granularity on one thread: handles are archive.clone() (each with its own cloned Cursor) of one 5-entry archive (stored, deflated, zstd+large_file, bzip2 with local-only extra data, ZipCrypto+deflated). {} scripts of 4 operations over {{by_index, by_index_raw, by_name, by_index_decrypt, a one-shot failure of the handle's own reader at its k-th next I/O call, read(k), read_to_end, data_start/header_start, metadata, close, reopen, out-of-range index}}. \
+        "E-SEQ at API-call granularity on one thread: handles are archive.clone() (each with its own cloned Cursor) of one 8-entry archive laid out by the independent builder (stored, deflated, zstd with a local ZIP64 block, bzip2 with local-only extra data, ZipCrypto+deflated, an empty file, a directory, AE-2+deflated). {} scripts of 4 operations over {{by_index, by_index_raw, by_name, by_index_decrypt with the right and with a wrong password, a one-shot failure of the handle's own reader at its k-th next I/O call, read(k), read_to_end, data_start/header_start, metadata, close, reopen, out-of-range index}}. \
          ALL {} interleavings of every ordered pair of scripts ({} pairs) and ALL {} interleavings of every ordered triple over {} of the scripts ({} triples). Oracle: each handle's observation log equals that of its script run alone on a freshly opened archive. \
          Plus run-time Send/Sync probes of ZipArchive<Cursor<Vec<u8>>>, ZipArchive<std::fs::File> and &ZipArchive. Thread-level interleavings: separate loom harness (2 threads x 2 entries, 3 threads x 1 entry; all schedules incl. Relaxed visibility). distinct_nontrivial = distinct (script tuple, interleaving) executions (counted).",
         n,
